@@ -794,7 +794,9 @@ def compile_lookaround_dispatch(run, ctx):
             ok = False
             for i_ in ifs:
                 cc = H.canon(i_["cond"])
-                if H.pat_match("let Info{const_size:false,expr:Expr::Alt(_),..} = {i}", cc):
+                if H.pat_match("let Info{const_size:false,expr:Expr::Alt(_),..} = {i}", cc) or \
+                        H.pat_match("(!{i}.const_size && match {i}.expr {Expr::Alt(_) => true; _ => false})", cc) or \
+                        H.pat_match("(match {i}.expr {Expr::Alt(_) => true; _ => false} && !{i}.const_size)", cc):
                     thenc = H.canon(i_["then"])
                     if var == "LookBehind" and "compile_alt(" in thenc and "compile_positive_lookaround(" in thenc:
                         ok = True
